@@ -46,12 +46,13 @@ TRecvInterest == Ev("RecvInterest") /\ RecvInterest(Tr[l].it, Tr[l].env) /\ Post
 TIntValFinish == Ev("IntValFinish") /\ IntValFinish(Tr[l].i, Tr[l].v) /\ PostOk
 TReply == Ev("Reply") /\ Reply(Tr[l].i) /\ PostOk
 TTick == Ev("Tick") /\ Tick /\ PostOk
+TJump == Ev("Jump") /\ Jump(Tr[l].to) /\ PostOk
 TShutdown == Ev("Shutdown") /\ Shutdown /\ PostOk
 TConnect == Ev("Connect") /\ Connect /\ PostOk
 TRecvJunk == Ev("RecvJunk") /\ RecvJunk("junk") /\ PostOk
 
 TNext == \/ TAttach \/ TAttachDup \/ TDetach \/ TRecvInterest \/ TIntValFinish \/ TReply
-         \/ TTick \/ TShutdown \/ TConnect \/ TRecvJunk
+         \/ TTick \/ TJump \/ TShutdown \/ TConnect \/ TRecvJunk
 TSpec == TInit /\ [][TNext]_tvars
 
 Mark == TLCSet(tid, Max2(TLCGet(tid), l))
